@@ -496,6 +496,11 @@ def check(ax, case, rec):
             ref.append(pts[-1])
         if len(pts) == 0:
             return  # points[-1] of an empty sequence is undefined; outside the documented domain
+        # edge of the domain, in every case: no samples between the milestones (num=0) - only the end point is left, or nothing
+        g0 = np.asarray(fm.linsteps(pts, num=0, endpoint=True), float).ravel()
+        rec.require("linsteps(num=0, endpoint=True)=[last milestone]", g0.shape == (1,) and g0[0] == float(pts[-1]), g0.tolist()[:3])
+        g1 = np.asarray(fm.linsteps(pts, num=0, endpoint=False), float).ravel()
+        rec.require("linsteps(num=0, endpoint=False)=[]", g1.size == 0, g1.tolist()[:3])
         got = fm.linsteps(pts, num=num, endpoint=endpoint)
         rec.require("linsteps-length", len(got) == len(ref), [len(got), len(ref)])
         if len(got) == len(ref):
